@@ -297,7 +297,11 @@ def main(argv=None):
         fs_jobs = []
         res_by_name = {r["case"]: r for r in results}
         for (m, c), r in [((m, c), res_by_name[c.name]) for m, c in cases if c.proved]:
-            if getattr(c, "scopes", None) and any(v["status"] == "unknown" for v in r["verdicts"]):
+            if getattr(c, "scopes", None) and (any(v["status"] == "unknown" for v in r["verdicts"])
+                                               or (r["error"] and "unsupported" in r["error"])):
+                # also when the general (symbolic block count) run left the executor's subset - typically because the
+                # code under contract was rewritten with a construct that is only modelled for concrete lengths: the
+                # finite scopes execute the same real code with the block count fixed
                 fs_jobs += [(m, c.name, seed, None, n) for n in c.scopes]
         fs_results = sharded_map(pool, fs_jobs) if fs_jobs else []
         phase("finite-scope-fallback")
@@ -319,6 +323,22 @@ def main(argv=None):
             continue
         r = by_case[c.name]
         if r["error"]:
+            hit = None
+            for fr in fs_by_case.get(c.name, []):
+                for fv in fr["verdicts"]:
+                    if fv["status"] == "refuted" and hit is None:
+                        hit = (fr["scope"], fv)
+            if hit is not None:
+                # the general proof could not be attempted, but the same contract clause is refuted with the block
+                # count fixed: reported as a refuted obligation (replayed natively below), not as a checker error
+                ob = dict(hit[1])
+                ob.update(case=c.name, module=modname, full=f"{prop}/{c.func}/{c.name}/{hit[1]['name']}",
+                          backend=f"z3 finite-scope expansion (sequence length {hit[0]})",
+                          detail=(f"general proof not attempted ({r['error'][:120]}); refuted with block count fixed to "
+                                  f"{hit[0]}: {hit[1]['name']}: {hit[1]['detail'][:200]}"))
+                obligations.append(ob)
+                refuted.append(ob)
+                continue
             lines.append(f"CHECKER-ERROR case={c.name}: {r['error'][:1500]}")
             bump(3)
             continue
